@@ -29,6 +29,7 @@ MODEL_CODE_TO_IMPL = {
     "data-construction": "corruption:data_construction",
     "gc-logic": "logic-error:gc_key_less_than_input",
     "not-found": "not-found",
+    "bad-sst": "corruption:sst_does_not_hold_the_entries_its_name_stands_for",
 }
 
 
@@ -41,7 +42,8 @@ def canon_impl_class(s):
         return "corruption:manifest_has_bad_discard"
     if s.startswith("corruption:manifest_has_bad_L_field"):
         return "corruption:manifest_has_bad_L_field"
-    if s.startswith("system-error") or "NotFound" in s or s.startswith("other") or "No_such_file" in s:
+    # only a file that cannot be opened is the model's not-found; other system errors stay what they are
+    if "file_open_failed" in s or "NotFound" in s or "No_such_file" in s or "not_found" in s:
         return "not-found"
     return s
 
@@ -92,6 +94,8 @@ class Run:
         self.checked = {}           # id -> (number of edits the oracle has checked, accumulated O)
         self.verified_files = set() # names whose contents were read back and recomputed
         self.last_verified = 0      # number of the last fragment the real verifier has processed
+        self.pending_logs = []      # fabricated logs the next open will recover
+        self.n_fab = 0
         self.cur_id = 1
         self.files = {}             # name -> entries (every file ever seen)
         self.tree = []              # names
@@ -311,24 +315,72 @@ class Run:
             return
         new = [n for n in tree if n not in self.tree]
         gone = [n for n in self.tree if n not in tree]
-        if gone or len(new) != (1 if self.mem else 0):
-            self.problem("corr", what="reopen: tree files changed unexpectedly", new=new, gone=gone, mem=self.mem)
-        log = self.files[new[0]] if new else []
-        log = sorted(log, key=lambda e: e[1])
+        fab = self.pending_logs
+        self.pending_logs = []
+        if gone or len(new) != (1 if self.mem else 0) + len(fab):
+            self.problem("corr", what="reopen: tree files changed unexpectedly", new=new, gone=gone, mem=self.mem, fabricated_logs=len(fab))
+        old_cur = self.cur_id
         self.tree = tree
         ins, rolled = self.sync("reopen")
         self.stats["rollover"] += rolled
-        roll = 1 if rolled >= 2 else 0
-        if rolled < 1 or rolled > 2:
-            self.problem("corr", what="reopen: %d rollovers" % rolled)
-        self.send_hashes(log)
-        if self.model_step("reopen %d %s" % (roll, self.ents_str(log)), "reopen"):
-            self.compare_model(ins, "reopen")
+        if not fab:
+            log = self.files[new[0]] if new else []
+            log = sorted(log, key=lambda e: e[1])
+            roll = 1 if rolled >= 2 else 0
+            if rolled < 1 or rolled > 2:
+                self.problem("corr", what="reopen: %d rollovers" % rolled)
+            self.send_hashes(log)
+            if self.model_step("reopen %d %s" % (roll, self.ents_str(log)), "reopen"):
+                self.compare_model(ins, "reopen")
+        else:
+            # several logs: the memtable's own (lowest number) first, then the fabricated ones
+            logs = []
+            fabsets = [sorted(f, key=kr_key) for f in fab]
+            mine = [n for n in new if sorted(self.files.get(n, []), key=kr_key) not in fabsets]
+            if self.mem and len(mine) == 1:
+                logs.append(sorted(self.files[mine[0]], key=lambda e: e[1]))
+            elif self.mem or mine:
+                self.problem("corr", what="reopen: cannot tell the memtable's log file from the fabricated ones", new=new)
+            logs += [list(f) for f in fab]
+            # which of the recovery edits was followed by a rollover: read it off the fragments
+            rolls, fid, placed = [], old_cur + 1, 0
+            for _ in logs:
+                placed += 1
+                if fid < self.cur_id and len(self.frags.get(fid, [])) - 1 == placed:
+                    rolls.append(1)
+                    fid, placed = fid + 1, 0
+                else:
+                    rolls.append(0)
+            for lg in logs:
+                self.send_hashes(lg)
+            line = "reopenlogs " + " | ".join("%d %s" % (r, self.ents_str(lg)) for r, lg in zip(rolls, logs))
+            if self.model_step(line, "reopen with %d logs" % len(logs)):
+                self.compare_model(ins, "reopen with %d logs" % len(logs))
+            self.stats["reopen_two_logs"] = self.stats.get("reopen_two_logs", 0) + (1 if len(logs) >= 2 else 0)
         self.mem = False
         self.stats["reopen"] += 1
 
     def reopen(self):
         self.sess.close()
+        self.open_session()
+
+    def reopen_after_flush_crash(self, ents):
+        """the restart after a process died while it flushed the immutable memtable and the NEW
+        memtable's log had already taken writes: two logs are found.  The second log is written
+        with sst::LogBuilder (the format the store writes) under a higher number; its entries
+        carry timestamps above everything the store holds."""
+        if self.dead:
+            return
+        self.sess.close()
+        self.n_fab += 1
+        base = 1000000 * self.n_fab
+        log = [(k, base + i, v) for i, (k, v) in enumerate(ents)]
+        out = self.tool.cmd("mklog %s %s" % (os.path.join(self.root, "log.%d" % base), " ".join(L.ent_tok(e) for e in log)))[0]
+        if out != "MKLOG ok":
+            self.problem("error", what="could not write the second log", out=out)
+            self.dead = True
+            return
+        self.pending_logs = [log]
         self.open_session()
 
     # ------------------------------------------------------------ ops
